@@ -180,6 +180,41 @@ func Main(args []string) int {
 		sort.Slice(l, func(i, j int) bool { return l[i].Name < l[j].Name })
 		_ = WriteJSON("-", l)
 		return 0
+	case "race":
+		// E3: free-running pass under the race detector (binary built with -race)
+		h := registry[*hname]
+		if h == nil || h.Kind != "sched" {
+			fmt.Fprintln(os.Stderr, "race: unknown or non-sched harness", *hname)
+			return 2
+		}
+		RaceMode = true
+		done := 0
+		nv := 0
+		for _, v := range h.Variants(*tier) {
+			if *vname != "" && v.Name != *vname {
+				continue
+			}
+			nv++
+			if *maxExec > 0 && int64(nv) > *maxExec {
+				break // -maxexec doubles as "at most this many variants" for the race pass
+			}
+			for i := 0; i < *nrep; i++ {
+				fin := make(chan struct{})
+				body := h.Sched(v)
+				go func() {
+					defer func() { _ = recover(); close(fin) }()
+					body()
+				}()
+				select {
+				case <-fin:
+					done++
+				case <-time.After(8 * time.Second):
+					// a body waiting on long real-time timers: abandon this iteration
+				}
+			}
+		}
+		fmt.Printf("race-pass harness=%s iterations-completed=%d\n", h.Name, done)
+		return 0
 	case "run", "replay", "tracediff":
 		h := registry[*hname]
 		if h == nil {
